@@ -77,8 +77,15 @@ def gen_case(rng):
     kind = "all" if rng.random() < 0.35 else "findall"
     tmpl = T.V(2) if rng.random() < 0.8 else T.Cm("f", T.V(2))
     add_clause(T.Cm("w", T.V(9)), [{"k": kind, "tmpl": tmpl, "g": goal, "res": T.V(9)}])
-    return {"clauses": clauses, "choices": choices, "den": den, "q": T.Cm("w", T.V(1)), "kind": kind,
-            "text": "\n".join(text) + "\nquery(w(_)).\n"}
+    extra = ""
+    if rng.random() < 0.5:
+        # the same call with the result argument bound to a list PATTERN (variables inside): judged from the same distribution
+        call = T.render({"t": "c", "c": T.codes("w"), "a": []}) if False else None
+        body = text[-1].split(":-", 1)[1].strip().rstrip(".")
+        inner = body[:body.rindex(",")]                      # "<kind>(Tmpl, Goal"  - the result variable is the last argument
+        extra = "wp(A,B) :- %s, [A,B]).\nwq(A,R) :- %s, [A|R]).\nquery(wp(_,_)).\nquery(wq(_,_)).\n" % (inner, inner)
+    return {"clauses": clauses, "choices": choices, "den": den, "q": T.Cm("w", T.V(1)), "kind": kind, "patterns": bool(extra),
+            "text": "\n".join(text) + "\nquery(w(_)).\n" + extra}
 
 
 def run(ctx):
@@ -111,10 +118,14 @@ def run(ctx):
                           "%s: %s\n%s" % (r["error"], r.get("msg"), c["text"]), {"case": c})
             continue
         exp = {T.render(e["ans"]): e["num"] for e in j["expected"] if e["num"] > 0}
-        got = {}
+        got, gotp = {}, {}
         for t, p in r["answers"]:
             if p > 1e-12 and not T.vars_of(t):
-                got[T.render(t)] = p
+                if T.txt(t["c"]) == "w":
+                    got[T.render(t)] = p
+                else:
+                    gotp[T.render(t)] = p
+        r = dict(r, answers=[(t, p) for t, p in r["answers"] if T.txt(t["c"]) == "w"])
         if len(exp) > 2:
             nontriv += 1
 
@@ -163,6 +174,30 @@ def run(ctx):
                 if not cand:
                     ctx.violation(dict(sig0, clause="list-spurious"), "%s: %r reported\n%s\nexpected %s" % (
                         name, got[name], c["text"], exp), {"case": c})
+        if c.get("patterns") and strict_ok:
+            # w(L) has exactly Prolog's distribution: the calls with a bound list pattern must be consistent with it
+            expp = {}
+            for e in j["expected"]:
+                if e["num"] <= 0:
+                    continue
+                lst = e["ans"]["a"][0]
+                if lst["t"] == "c" and len(lst["a"]) == 2:
+                    h, tl = lst["a"]
+                    k = "wq(%s,%s)" % (T.render(h), T.render(tl))
+                    expp[k] = expp.get(k, 0) + e["num"]
+                    if tl["t"] == "c" and len(tl["a"]) == 2 and tl["a"][1]["t"] == "a":
+                        k = "wp(%s,%s)" % (T.render(h), T.render(tl["a"][0]))
+                        expp[k] = expp.get(k, 0) + e["num"]
+            for name, num in expp.items():
+                if name not in gotp or not close(gotp[name], num, j["total"], 1e-9):
+                    ctx.violation(dict(sig0, clause="bound-result-pattern"), "%s: reported %r, exact %d/%d (from the distribution of w(L))\n%s" % (
+                        name, gotp.get(name), num, j["total"], c["text"]), {"case": c})
+                    break
+            for name in gotp:
+                if name not in expp:
+                    ctx.violation(dict(sig0, clause="bound-result-pattern"), "%s: %r reported, no result list has that shape\n%s" % (
+                        name, gotp[name], c["text"]), {"case": c})
+                    break
         if len(ctx.samples) < 2:
             ctx.sample({"text": c["text"], "tlc": {k: "%d/%d" % (v, j["total"]) for k, v in exp.items()}, "impl": got})
     ctx.write_evidence("exploration", {
